@@ -44,7 +44,7 @@ KIND_NO = {"ObjString": 0, "ObjStringIter": 1, "ObjUpvalue": 2, "ObjFunction": 3
            "ObjVec": 10, "ObjVecIter": 11, "ObjTuple": 12, "ObjTupleIter": 13, "ObjRange": 14, "ObjRangeIter": 15,
            "ObjHashMap": 16, "ObjModule": 17, "ObjFiber": 18, "Chunk": 19}
 
-KNOWN = ("open_upvalue_dead_fiber",)   # the only class of C01 failures that is a recorded open finding
+KNOWN = ()   # no class of C01 failures is a recorded open finding any more (open_upvalue_dead_fiber: repaired by 8e4673f)
 
 # (kind, role) of the generated tables -> probe tags that exercise it (search on break)
 ROLE_TAGS = {
@@ -118,6 +118,9 @@ def probes():
 
     UP = ["ObjUpvalue"]
     FB = ["ObjFiber"]
+    # an OPEN upvalue traces the fiber owning its slot (8e4673f) and the fiber lists its open upvalues: a cycle
+    # fiber <-> upvalue (<- closure); the closure-based holder test names every member of it
+    OPEN = {"holders": ["ObjFiber", "ObjUpvalue", "ObjClosure"], "max_holders": 4}
     for sname, mk, show in SHAPES:
         X = "T(%s)" % mk
         pr = lambda e: "print(%s);" % show.format(x=e)
@@ -132,9 +135,9 @@ def probes():
         add("upvalue", "closed upvalue shared by two closures, written through one", sname,
             "fn mk() { var x = 0; fn s(v) { x = v; } fn g() { return x; } return (s, g); } var c = mk(); c[0](%s); %s %s" % (X, window(), pr("c[1]()")), holders=UP)
         add("open", "open upvalue (enclosing frame still active)", sname,
-            "fn outer() { var x = %s; fn g() { return x; } %s return g(); } var r = outer(); %s" % (X, window(), pr("r")), holders=FB)
+            "fn outer() { var x = %s; fn g() { return x; } %s return g(); } var r = outer(); %s" % (X, window(), pr("r")), **OPEN)
         add("open", "open upvalue kept only by the fiber's open list, re-captured later", sname,
-            "fn outer() { var x = %s; { fn a() { return x; } } %s fn b() { return x; } return b; } var r = outer(); %s %s" % (X, window(), garb(), pr("r()")), holders=FB)
+            "fn outer() { var x = %s; { fn a() { return x; } } %s fn b() { return x; } return b; } var r = outer(); %s %s" % (X, window(), garb(), pr("r()")), **OPEN)
         add("upvalue", "nested closure (upvalue of an upvalue)", sname,
             "fn mk() { var x = %s; fn a() { fn b() { return x; } return b; } return a; } var c = mk(); %s var d = c(); %s %s" % (X, window(), garb(), pr("d()")), holders=UP)
         # classes
@@ -175,14 +178,13 @@ def probes():
         add("fiber", "value passed into a fiber on resume", sname,
             "var f = Fiber.new(|| { var got = Fiber.yield(0); %s return got; }); f.call(); %s" % (window(), pr("f.call(%s)" % X)), holders=FB, max_holders=3)
         add("open", "captured variable on a suspended fiber's stack (fiber kept)", sname,
-            "var f = Fiber.new(|| { var x = %s; fn g() { return x; } Fiber.yield(g); return 0; }); var c = f.call(); %s %s" % (X, window(), pr("c()")), holders=FB)
+            "var f = Fiber.new(|| { var x = %s; fn g() { return x; } Fiber.yield(g); return 0; }); var c = f.call(); %s %s" % (X, window(), pr("c()")), **OPEN)
         add("open", "captured variable on a calling fiber's stack", sname,
-            "var f = Fiber.new(|| { var x = %s; fn g() { return x; } var h = Fiber.new(|| { %s return g(); }); return h.call(); }); %s" % (X, window(), pr("f.call()")), holders=FB, max_holders=3)
+            "var f = Fiber.new(|| { var x = %s; fn g() { return x; } var h = Fiber.new(|| { %s return g(); }); return h.call(); }); %s" % (X, window(), pr("f.call()")), holders=OPEN["holders"], max_holders=8)
         add("upvalue", "captured variable of a finished fiber (closed on return)", sname,
             "fn mk() { var f = Fiber.new(|| { var x = %s; fn g() { return x; } return g; }); return f.call(); } var c = mk(); %s %s" % (X, window(), pr("c()")), holders=UP)
         add("open", "captured variable on a DROPPED suspended fiber's stack", sname,
-            "fn mk() { var f = Fiber.new(|| { var x = %s; fn g() { return x; } Fiber.yield(g); return 0; }); return f.call(); } var c = mk(); %s %s" % (X, window(), pr("c()")),
-            known="open_upvalue_dead_fiber", holders=FB)
+            "fn mk() { var f = Fiber.new(|| { var x = %s; fn g() { return x; } Fiber.yield(g); return 0; }); return f.call(); } var c = mk(); %s %s" % (X, window(), pr("c()")), **OPEN)
         # interpreter-held values
         add("return_value", "return value held across a finally", sname,
             "fn f() { try { return %s; } finally { %s } } %s" % (X, window(), pr("f()")), holders=FB)
@@ -726,13 +728,21 @@ def tree_state(man):
         "receiver_blacken": not man.get("blackens_mark"),
         "map_keys_traced": "RKey" in marks.get("KHashMap", []),
         "superclass_traced": "RSuperclass" in marks.get("KClass", []),
+        "open_slot_traced": "ROpenSlot" in marks.get("KUpvalue", []),
     }
 
 
-REP_ON = "(* ---- variant REPAIRED (begin; active) ---- *)"
-REP_OFF = "(* ---- variant REPAIRED (begin; inactive)"
-UNR_ON = "(* ---- variant UNREPAIRED (begin; active) ---- *)"
-UNR_OFF = "(* ---- variant UNREPAIRED (begin; inactive)"
+def variant_active(txt, name):
+    return ("(* ---- variant %s (begin; active) ---- *)" % name) in txt
+
+
+def set_variant(txt, name, active):
+    """a variant of the SWITCH BLOCK is either delimited by two comment lines (active) or lies inside one comment"""
+    on_b, on_e = "(* ---- variant %s (begin; active) ---- *)" % name, "(* ---- variant %s (end) ---- *)" % name
+    off_b, off_e = "(* ---- variant %s (begin; inactive)" % name, "---- variant %s (end) *)" % name
+    if active:
+        return txt.replace(off_b, on_b).replace(off_e, on_e)
+    return txt.replace(on_b, off_b).replace(on_e, off_e)
 
 
 def switch_state():
@@ -741,7 +751,14 @@ def switch_state():
         txt = fh.read()
     m = re.search(r"Definition c01_open_pairs[^:]*:[^=]*:=\s*\[(.*?)\]\.", txt, re.S)
     pairs = re.findall(r"\((K\w+),\s*(R\w+)\)", m.group(1)) if m else []
-    return {"open_pairs": pairs, "variant_repaired": REP_ON in txt}
+    return {"open_pairs": pairs, "variant_repaired": variant_active(txt, "REPAIRED"),
+            "variant_all_covered": variant_active(txt, "ALL-COVERED")}
+
+
+def expected_open_pairs(st):
+    return ([] if st["open_slot_traced"] else [("KUpvalue", "ROpenSlot")]) + \
+           ([] if st["superclass_traced"] else [("KClass", "RSuperclass")]) + \
+           ([] if st["map_keys_traced"] else [("KHashMap", "RKey")])
 
 
 def replay(ctx):
@@ -763,11 +780,12 @@ def run(ctx):
     man = manifest()
     st = tree_state(man)
     sw = switch_state()
-    ctx.notes.append("sources as read by the translator: %s; props/C01.v switch block: open pairs %s, regrey variant %s" % (
-        st, sw["open_pairs"], "REPAIRED" if sw["variant_repaired"] else "UNREPAIRED"))
+    ctx.notes.append("sources as read by the translator: %s; props/C01.v switch block: open pairs %s, variants %s / %s" % (
+        st, sw["open_pairs"], "REPAIRED" if sw["variant_repaired"] else "UNREPAIRED",
+        "ALL-COVERED" if sw["variant_all_covered"] else "SOME-OPEN"))
     if man.get("unknown"):
         ctx.broken.append("translator (C01_translator_complete): " + "; ".join(man["unknown"][:6]))
-    want_pairs = [("KUpvalue", "ROpenSlot")] + ([] if st["superclass_traced"] else [("KClass", "RSuperclass")]) + ([] if st["map_keys_traced"] else [("KHashMap", "RKey")])
+    want_pairs = expected_open_pairs(st)
     if not man.get("unknown") and (sorted(want_pairs) != sorted(sw["open_pairs"]) or st["receiver_blacken"] != sw["variant_repaired"]):
         ctx.notes.append("a repair has landed (or was reverted): edit the SWITCH BLOCK of coq/props/C01.v as described in notes/C01.md "
                          "(expected open pairs %s, regrey variant %s)" % (want_pairs, "REPAIRED" if st["receiver_blacken"] else "UNREPAIRED"))
@@ -883,17 +901,14 @@ def search(ctx):
 # switching props/C01.v after a repair has landed:  python3 tools/props/C01.py --switch [--print]
 
 def switched_text(txt, st):
-    """SWITCH 1: the open-pairs list; SWITCH 2: which variant is inside a comment"""
-    pairs = ["(KUpvalue, ROpenSlot)"] + ([] if st["superclass_traced"] else ["(KClass, RSuperclass)"]) + ([] if st["map_keys_traced"] else ["(KHashMap, RKey)"])
+    """SWITCH 1: the open-pairs list; SWITCH 2 / SWITCH 3: which variant is inside a comment"""
+    pairs = ["(%s, %s)" % p for p in expected_open_pairs(st)]
     txt = re.sub(r"(Definition c01_open_pairs[^:]*:[^=]*:=\s*)\[.*?\]\.", lambda m: m.group(1) + "[" + "; ".join(pairs) + "].", txt, count=1, flags=re.S)
-    rep_end_on, rep_end_off = "(* ---- variant REPAIRED (end) ---- *)", "---- variant REPAIRED (end) *)"
-    unr_end_on, unr_end_off = "(* ---- variant UNREPAIRED (end) ---- *)", "---- variant UNREPAIRED (end) *)"
-    if st["receiver_blacken"]:
-        txt = txt.replace(REP_OFF, REP_ON).replace(rep_end_off, rep_end_on) if REP_OFF in txt else txt
-        txt = txt.replace(UNR_ON, UNR_OFF).replace(unr_end_on, unr_end_off)
-    else:
-        txt = txt.replace(UNR_OFF, UNR_ON).replace(unr_end_off, unr_end_on) if UNR_OFF in txt else txt
-        txt = txt.replace(REP_ON, REP_OFF).replace(rep_end_on, rep_end_off)
+    txt = set_variant(txt, "REPAIRED", st["receiver_blacken"])
+    txt = set_variant(txt, "UNREPAIRED", not st["receiver_blacken"])
+    allc = st["receiver_blacken"] and not pairs
+    txt = set_variant(txt, "ALL-COVERED", allc)
+    txt = set_variant(txt, "SOME-OPEN", not allc)
     return txt
 
 
